@@ -77,5 +77,6 @@ rdet = sum(1 for k, r in res.items() if k.startswith('revert-') and r.get('detec
 doc = doc.replace('@@NSEEDS@@', str(n_seeds)).replace('@@NSEEDSDET@@', str(det)).replace('@@NREVERT@@', str(sum(1 for k in res if k.startswith('revert-')))).replace('@@NREVERTDET@@', str(rdet))
 ben = json.load(open(V + '/benign/RESULTS.json')) if os.path.exists(V + '/benign/RESULTS.json') else {}
 doc = doc.replace('@@NBENIGN@@', str(sum(1 for r in ben.values() if r.get('applied')))).replace('@@NBENIGNQUIET@@', str(sum(1 for r in ben.values() if r.get('applied') and not r.get('alarms'))))
+doc = doc.replace('@@NFIXED@@', str(len({f['finding'] for f in known['fixed']}))).replace('@@NKNOWN@@', str(len({f['finding'] for f in known['known']})))
 open(V + '/DESIGN.md', 'w').write(doc)
 print('DESIGN.md written:', len(doc.splitlines()), 'lines')
